@@ -1,6 +1,6 @@
 (* C16: the generic decoder/encoder theorems instantiated with the 2D parity matrix model (Pchk2D.v). *)
 From Coq Require Import List Arith Bool Lia.
-From OFV Require Import ListAux XorGroup LdpcEnc ITModel ITLemmas ITProofs ITCorollaries Pchk2D.
+From OFV Require Import ListAux XorGroup LdpcEnc ITModel ITLemmas ITProofs ITCorollaries Pchk2D MLModel MLFinish MLSession.
 Import ListNotations.
 
 Section P2D.
@@ -57,5 +57,36 @@ Proof.
   split; [|exact Hsrc].
   apply (run_complete_flag Sy sxor s0 H R N hl hnd hrg hdg hrn (S N) hist s Hr Hs).
   exact Hsrc.
+Qed.
+(* of_finish_decoding (ML) on the 2D matrix: sound, truthful, and it recovers exactly the patterns the
+   checks determine uniquely *)
+Lemma hcov : forall c, c < N -> exists i, i < R /\ In c (nth i H []).  Proof. apply p2d_covered; assumption. Qed.
+Lemma hst : stair R H.  Proof. apply p2d_stair; assumption. Qed.
+
+Lemma p2d_session_finish (Hnt : exists a : Sy, a <> s0) (cw : nat -> Sy) :
+  (forall i, i < R -> fold_right sxor s0 (map cw (nth i H [])) = s0) ->
+  forall (hist : list (nat * Sy)) (s : st Sy) (fuel : nat) (perm : list nat) (o : outcome Sy),
+  (forall ev, In ev hist -> fst ev < N /\ snd ev = cw (fst ev)) ->
+  run Sy sxor s0 H R N (S N) hist = Some s ->
+  N < fuel -> (forall c, c < R -> In c perm) -> (forall c, In c perm -> c < R) ->
+  ml_finish sxor s0 fuel perm s = Some o ->
+  (forall c v, nth c (tab (o_st o)) None = Some v -> v = cw c) /\
+  (forall c x, nth c (tab s) None = Some x -> nth c (tab (o_st o)) None = Some x) /\
+  (o_ok o = true <-> (forall c, R <= c < N -> known (o_st o) c = true)) /\
+  ((forall c, R <= c < N -> known (o_st o) c = true) <->
+   (forall z : nat -> bool, (forall i, i < R -> fold_right xorb false (map z (nth i H [])) = false) ->
+      (forall c, In c (map fst hist) -> z c = false) -> forall c, R <= c < N -> z c = false)).
+Proof.
+  intros Hp. exact (ldpc_session_finish Sy sxor s0 sxor_assoc sxor_comm sxor_0_l sxor_nilp H R N hl hnd hrg hdg hrn hcov hst Hnt cw Hp).
+Qed.
+
+Lemma p2d_session_total (Hnt : exists a : Sy, a <> s0) (cw : nat -> Sy) :
+  (forall i, i < R -> fold_right sxor s0 (map cw (nth i H [])) = s0) ->
+  forall (hist : list (nat * Sy)) (fuel : nat) (perm : list nat),
+  (forall ev, In ev hist -> fst ev < N /\ snd ev = cw (fst ev)) ->
+  N < fuel -> (forall c, c < R -> In c perm) -> (forall c, In c perm -> c < R) ->
+  exists (s : st Sy) (o : outcome Sy), run Sy sxor s0 H R N (S N) hist = Some s /\ ml_finish sxor s0 fuel perm s = Some o.
+Proof.
+  intros Hp. exact (ldpc_session_total Sy sxor s0 sxor_assoc sxor_comm sxor_0_l sxor_nilp H R N hl hnd hrg hdg hrn hcov hst Hnt cw Hp).
 Qed.
 End P2D.
